@@ -73,13 +73,22 @@ PopReturns == closed \/ ~Empty
 (* ... and hands out the front item: PopAnyway and the sync queue drain a closed queue *)
 PopTakes(a) == ~Empty /\ (a.any \/ ~closed \/ Deviation = "pop_drains")
 
-Replies(a) ==
-  CASE a.op = "add" ->
+(* AddAnyway (op "addw") is the ordinary add that sleeps and retries while the lane is full: it is  *)
+(* the same action, enabled only when it returns (lane not full, or queue closed)                *)
+AsAdd(a) == [op |-> "add", lane |-> a.lane, prior |-> FALSE, v |-> a.v]
+Norm(a)  == IF a.op = "addw" THEN AsAdd(a) ELSE a
+IsAdd(a) == a.op \in {"add", "addw"}
+
+AddReplies(a) ==
          \* refused on a closed queue (dropped silently by the sync queue); when the closed lane
          \* also holds its capacity the property does not say which refusal is reported
          IF closed THEN (IF kind = "syncq" THEN {Ok}
                          ELSE IF Full(a) THEN {R("closed", 0), R("full", 0)} ELSE {R("closed", 0)})
          ELSE IF Full(a) THEN {R("full", 0)} ELSE {Ok}
+
+Replies(a) ==
+  CASE a.op = "add"  -> AddReplies(a)
+    [] a.op = "addw" -> AddReplies(AsAdd(a))
     [] a.op = "pop" ->
          IF PopTakes(a) THEN {R("item", Front)} ELSE {R("closed", 0)}
     [] a.op = "trypop" ->
@@ -92,10 +101,17 @@ Replies(a) ==
     [] a.op = "len" -> {R("len", Len(ctrl) + Len(req))}
     [] a.op = "isclosed" -> {Bool(closed)}
     [] a.op = "iscleared" -> {Bool(cleared)}
+    [] a.op = "size" -> {R("size", IF Bounded(rcap) THEN rcap ELSE 0)}       \* async.Q.Size()
+    \* WaitClose / WaitClear(ctx): with a live context (bg) it returns nil once closed / cleared (and
+    \* blocks before); with a context that has already ended it may report either, but "done" only
+    \* when the queue really is closed / cleared
+    [] a.op = "waitclose" -> IF a.bg \/ ~closed THEN {IF a.bg THEN Ok ELSE R("canceled", 0)}
+                             ELSE {Ok, R("canceled", 0)}
+    [] a.op = "waitclear" -> IF a.bg \/ ~cleared THEN {IF a.bg THEN Ok ELSE R("canceled", 0)}
+                             ELSE {Ok, R("canceled", 0)}
     [] OTHER -> {}
 
-Do(a) ==
-  CASE a.op = "add" ->
+DoAdd(a) ==
          /\ seq' = seq + 1
          /\ IF Accepts(a)
             THEN /\ hist' = Append(hist, [v |-> a.v, lane |-> a.lane, prior |-> a.prior])
@@ -104,6 +120,10 @@ Do(a) ==
                     ELSE req' = (IF a.prior THEN <<a.v>> \o req ELSE Append(req, a.v)) /\ UNCHANGED ctrl
             ELSE UNCHANGED <<hist, ctrl, req>>
          /\ UNCHANGED <<kind, ccap, rcap, closed, cleared, out>>
+
+Do(a) ==
+  CASE a.op = "add"  -> DoAdd(a)
+    [] a.op = "addw" -> (closed \/ ~Full(AsAdd(a))) /\ DoAdd(AsAdd(a))
     [] a.op = "pop" ->
          /\ PopReturns
          /\ IF PopTakes(a)
@@ -128,7 +148,9 @@ Do(a) ==
     [] a.op = "tryclear" ->
          /\ cleared' = (cleared \/ (closed /\ Empty))
          /\ UNCHANGED <<kind, ccap, rcap, ctrl, req, closed, seq, hist, out>>
-    [] a.op \in {"len", "isclosed", "iscleared"} -> UNCHANGED qvars
+    [] a.op \in {"len", "isclosed", "iscleared", "size"} -> UNCHANGED qvars
+    [] a.op = "waitclose" -> (a.bg => closed) /\ UNCHANGED qvars
+    [] a.op = "waitclear" -> (a.bg => cleared) /\ UNCHANGED qvars
     [] OTHER -> FALSE
 
 Step(a, r) == r \in Replies(a) /\ Do(a) /\ last' = [a |-> a, r |-> r]
@@ -146,7 +168,7 @@ CONSTANTS Kinds, Caps, MaxItems
 Lanes(k) == IF k = "mq" THEN {"ctrl", "req"} ELSE {"req"}
 NoArg(k) ==
   CASE k = "q"     -> {"close"}
-    [] k = "async" -> {"close", "isclosed"}
+    [] k = "async" -> {"close", "isclosed", "size"}
     [] k = "mux"   -> {"close", "isclosed"}
     [] k = "mq"    -> {"close", "tryclose", "tryclear", "isclosed", "iscleared"}
     [] k = "syncq" -> {"close", "trypop", "len"}
@@ -157,6 +179,9 @@ ActsOf(k) ==
        [op : {"add"}, lane : Lanes(k), prior : IF k = "syncq" THEN {FALSE} ELSE BOOLEAN, v : {seq + 1}]
   \cup [op : {"pop"}, any : IF k = "syncq" THEN {TRUE} ELSE BOOLEAN]
   \cup [op : NoArg(k)]
+  \cup [op : IF k = "syncq" THEN {} ELSE {"addw"}, lane : Lanes(k), v : {seq + 1}]
+  \cup [op : CASE k \in {"mux", "mq"} -> {"waitclose"} [] OTHER -> {}, bg : BOOLEAN]
+  \cup [op : IF k = "mq" THEN {"waitclear"} ELSE {}, bg : BOOLEAN]
 
 Configs == {c \in [kind : Kinds, ccap : Caps, rcap : Caps] :
               /\ (c.kind # "mq" => c.ccap = 0)
@@ -164,7 +189,7 @@ Configs == {c \in [kind : Kinds, ccap : Caps, rcap : Caps] :
 
 Init == \E c \in Configs : InitWith(c.kind, c.ccap, c.rcap)
 Next == \E a \in ActsOf(kind) : \E r \in Replies(a) :
-          /\ (a.op = "add" => seq < MaxItems)
+          /\ (IsAdd(a) => seq < MaxItems)
           /\ Step(a, r)
 Spec == Init /\ [][Next]_allqvars
 
@@ -209,7 +234,7 @@ LanesSorted ==
 (* an ordinary add is refused as full exactly when the open lane holds its  *)
 (* capacity; a prior add never; nothing else changes the lane              *)
 Capacity ==
-  [][LET a == last'.a
+  [][LET a == Norm(last'.a)
          r == last'.r
      IN a.op = "add" =>
           /\ LET atcap == ~a.prior /\ Bounded(CapOf(a.lane)) /\ Len(Lane(a.lane)) >= CapOf(a.lane) IN
@@ -241,7 +266,7 @@ CloseSem ==
 ClearedIsFinal == cleared => closed /\ Empty
 
 ReadOnly ==
-  [][last'.a.op \in {"len", "isclosed", "iscleared", "close", "tryclose", "tryclear"}
+  [][last'.a.op \in {"len", "isclosed", "iscleared", "size", "waitclose", "waitclear", "close", "tryclose", "tryclear"}
         => UNCHANGED <<ctrl, req, hist, out>>]_allqvars
 
 QView == qvars
